@@ -45,7 +45,7 @@ pub fn nontrivial(case: &Case) -> bool {
 
 pub fn gen_checked(ctx: &mut Ctx, rng: &mut crate::util::Rng, exact_only: bool) -> Option<Case> {
     let mut rejected = 0u64;
-    let scale_free = matches!(ctx.prop.as_str(), "C01" | "C02" | "C04" | "C05" | "C13" | "C14");
+    let scale_free = matches!(ctx.prop.as_str(), "C01" | "C02" | "C04" | "C05" | "C13" | "C14" | "C15");
     let case = if exact_only {
         gen_exact(rng, ctx.size())
     } else if scale_free {
